@@ -197,8 +197,14 @@ fn hyphenate_impl(hyphenater: &Hyphenator, list: &[ds::Horizontal]) -> Vec<ds::H
                 // Consume the node whose characters have just been placed in s (or the normal kern).
                 i += 1;
             };
-        // The first char node that triggered the word search will have been put in s.
-        assert!(!s.is_empty());
+        // The first char node that triggered the word search will have been put in s, unless
+        // it is a ligature made of a letter and a non-letter (e.g. of a letter and the hyphen).
+        // In TeX.2021.898 such a ligature ends the word before it has begun (hn=0), and
+        // TeX.2021.899 gives up because the word is too short.
+        if s.is_empty() {
+            i = hyphenation_start_i;
+            continue;
+        }
 
         // Check if the word can be hyphenated based on the terminating node.
         // TeX.2021.899
